@@ -618,10 +618,13 @@ def _make_driver(stack, kind, creds, driver, timeout_ops):
                timeout_transport=0, timeout_socket=0, on_open=_noop if sync else _anoop)
 
 
-def run_driver(stack, kind, spec, policy, creds, driver="generic", timeout_ops=30.0):
-    """the whole driver.open() over the scripted transport (GenericDriver / Driver of the stack)"""
+def run_driver(stack, kind, spec, policy, creds, driver="generic", timeout_ops=30.0, depth=None):
+    """the whole driver.open() over the scripted transport (GenericDriver / Driver of the stack); depth: a non-default
+    comms_prompt_search_depth, set through the driver's public setter"""
     sync = stack == "sync"
     d = _make_driver(stack, kind, creds, driver, timeout_ops)
+    if depth:
+        d.comms_prompt_search_depth = depth
     srv = LoginServer(spec)
     t = (SyncT if sync else AsyncT)(srv, policy, bta=d._base_transport_args)
     d.transport = t
